@@ -119,6 +119,22 @@ func fieldCases() []fieldCase {
 		{Name: "ignoremissing_with_ignorecase", Decls: "type PFXIn struct {\n\tFOO string\n\tN int\n}\ntype PFXOut struct {\n\tFoo string\n\tN int\n\tGone int\n}\n", Src: "PFXIn", Tgt: "PFXOut",
 			Lines: []string{"matchIgnoreCase", "ignoreMissing"},
 			Pairs: map[string]*PairSpec{"PFXIn→PFXOut": {IgnoreMissing: true, IgnoreCase: true}}},
+		// a setting that names a field in another spelling is unknown, also under matchIgnoreCase (which concerns
+		// the search for *source* fields only)
+		{Name: "fail_ignore_miscased_under_ignorecase", Decls: "type PFXIn struct {\n\tName string\n\tSECRET string\n}\ntype PFXOut struct {\n\tName string\n\tSecret string\n}\n", Src: "PFXIn", Tgt: "PFXOut",
+			Lines: []string{"matchIgnoreCase", "ignore secret"}, Fail: "ignore names a field in another spelling (matchIgnoreCase does not apply to setting targets)"},
+		{Name: "fail_map_target_miscased_under_ignorecase", Decls: "type PFXIn struct {\n\tName string\n\tOther string\n\tSECRET string\n}\ntype PFXOut struct {\n\tName string\n\tSecret string\n}\n", Src: "PFXIn", Tgt: "PFXOut",
+			Lines: []string{"matchIgnoreCase", "map Other secret"}, Fail: "map names a target field in another spelling"},
+		{Name: "fail_map_target_miscased_converter_level", Decls: "type PFXIn struct {\n\tName string\n\tOther string\n\tSECRET string\n}\ntype PFXOut struct {\n\tName string\n\tSecret string\n}\n", Src: "PFXIn", Tgt: "PFXOut",
+			Conv: []string{"matchIgnoreCase"}, Lines: []string{"ignore SECRET"}, Fail: "ignore names a field in another spelling (matchIgnoreCase at converter level)"},
+		// field settings on a declared method of the same pointer family are an overlap also when the current
+		// method starts from a default constructor
+		{Name: "fail_overlap_default_constructor", Decls: "type PFXIn struct {\n\tName string\n\tFullName string\n}\ntype PFXOut struct{ Name string }\nfunc PFXNewOut() *PFXOut { return &PFXOut{} }\n", Src: "PFXIn", Tgt: "*PFXOut",
+			Lines: []string{"default PFXNewOut"}, Extra: "\t// goverter:map FullName Name\n\tPFXInner(source *PFXIn) *PFXOut\n",
+			Fail: "field settings (map) on a method that the default-constructor method bypasses"},
+		{Name: "fail_overlap_default_update", Decls: "type PFXIn struct {\n\tName string\n\tFullName string\n}\ntype PFXOut struct{ Name string }\nfunc PFXNewOut() *PFXOut { return &PFXOut{} }\n", Src: "*PFXIn", Tgt: "*PFXOut",
+			Lines: []string{"default PFXNewOut", "default:update"}, Extra: "\t// goverter:map FullName Name\n\tPFXInner(source PFXIn) *PFXOut\n",
+			Fail: "field settings (map) on a method that the default:update method bypasses"},
 		{Name: "fail_unexported_target_via_func", Decls: "type PFXIn struct{ Name string }\ntype PFXOut struct {\n\tName string\n\tsecret string\n}\nfunc PFXUpper(s string) string { return s }\n", Src: "PFXIn", Tgt: "PFXOut",
 			Lines: []string{"map Name secret | PFXUpper"}, Fail: "unexported target field written through map|FUNC from another package", Formats: []string{"struct", "function"}},
 		{Name: "fail_unexported_target_via_map", Decls: "type PFXIn struct{ Name string }\ntype PFXOut struct {\n\tName string\n\tsecret string\n}\n", Src: "PFXIn", Tgt: "PFXOut",
